@@ -334,6 +334,24 @@ def observe_matrices(rng, R, reg, tid):
                 r["exc"] = _exc(ex)
             recs.append(r)
 
+    # one-way classical information of a two-qubit state for a measurement {M_k} on the second qubit, with
+    # projective, unsharp and rank-one non-orthogonal POVMs (documented input: "The POVMs")
+    if n == 2:
+        rot = U.rand_rotation(rng)
+        povms = [("projective", U.povm_projective(rng), True), ("trine", U.povm_trine(rot=rot), True),
+                 ("tetra", U.povm_tetra(rot=rot), True), ("trine_z", U.povm_trine(), True),
+                 ("unsharp", U.povm_unsharp(float(rng.uniform(0.2, 0.8)), axis=int(rng.integers(1, 4))), False),
+                 ("random%d" % 3, U.povm_random(rng, 3), False)]
+        for kind, Ms, rank1 in povms:
+            pre = bool(rng.random() < 0.3)
+            r = {"ev": "owci", "tid": tid, "reg": reg, "rep": "dop", "povm": kind, "rank1": rank1, "precomp": pre}
+            prjs = [qu.qu(M) for M in Ms]
+            if pre:
+                r.update(value_fields("owci", lambda: qu.calc.one_way_classical_information(reps["dop"], None, precomp_func=True)(prjs)))
+            else:
+                r.update(value_fields("owci", lambda: qu.calc.one_way_classical_information(reps["dop"], prjs)))
+            recs.append(r)
+
     # simulated computational-basis counts: only strings of non-zero probability, C in total
     rep = dense[int(rng.integers(len(dense)))]
     C = 40
@@ -888,6 +906,27 @@ def relational_cases(rng, count, tid):
               lambda: Pj @ rhoP @ Pj / np.real(np.trace(Pj @ rhoP)), rep="ket", **ctxf)
         X.rel("MeasureTextbook", "projector", lambda: qu.projector(qu.qu(Aobs), eigenvalue=ev), lambda: Pj, **ctxf)
 
+        # ---- operators supplied by the caller: correlation with non-symmetric complex (Hermitian and not) operators
+        ia, ib = [int(x) for x in rng.permutation(L)[:2]]
+        for herm in (True, False):
+            Oa = rng.standard_normal((dims[ia], dims[ia])) + 1j * rng.standard_normal((dims[ia], dims[ia]))
+            Ob = rng.standard_normal((dims[ib], dims[ib])) + 1j * rng.standard_normal((dims[ib], dims[ib]))
+            if herm:
+                Oa, Ob = Oa + Oa.conj().T, Ob + Ob.conj().T
+            Fa, Fb = U.full_op(Oa, [ia], dims), U.full_op(Ob, [ib], dims)
+
+            def _corr_ref(Fa=Fa, Fb=Fb, st=rho):
+                return np.trace(Fa @ Fb @ st) - np.trace(Fa @ st) * np.trace(Fb @ st)
+
+            X.rel("TextbookValue", "correlation", lambda Oa=Oa, Ob=Ob: qu.correlation(r, qu.qu(Oa), qu.qu(Ob), ia, ib, dims=dims), _corr_ref,
+                  herm=herm, sites=[ia, ib], **ctxf)
+            X.rel("TextbookValue", "correlation", lambda Oa=Oa, Ob=Ob: qu.correlation(k, qu.qu(Oa), qu.qu(Ob), ia, ib, dims=dims),
+                  lambda Fa=Fa, Fb=Fb: _corr_ref(Fa, Fb, rhoP), rep="ket", herm=herm, sites=[ia, ib], **ctxf)
+        # measurement with the documented pre-diagonalised form of the observable (eigenvalues, eigenvectors)
+        el_, ev_ = np.linalg.eigh(Aobs)
+        X.rel("MeasureTextbook", "measure", lambda: qu.measure(r, (el_, qu.qu(ev_)), eigenvalue=ev)[1],
+              lambda: Pj @ rho @ Pj / np.real(np.trace(Pj @ rho)), variant="prediag", **ctxf)
+
         # ---- two-qubit quantities on two chosen qubit sites ----
         two = [i for i in range(L) if dims[i] == 2]
         if len(two) >= 2:
@@ -926,6 +965,28 @@ def edge_cases(rng, tid):
         X.rel("TextbookValue", "entropy_subsys", lambda: qu.entropy_subsys(k, dims, A), lambda: U.np_entropy(U.np_ptr(psi, dims, A)), rep="ket", dims=dims, A=A, trivA=trivA)
         X.rel("TextbookValue", "logneg", lambda: qu.logneg(k, dims, A), lambda: U.np_logneg(np.outer(psi, psi.conj()), dims, A), rep="ket", dims=dims, A=A, trivA=trivA)
         X.rel("TextbookValue", "mutinf", lambda: qu.mutinf(k, dims, A), lambda: 2 * U.np_entropy(U.np_ptr(psi, dims, A)), rep="ket", dims=dims, A=A, trivA=trivA)
+    # one-way classical information against the defining formula, projective and genuine POVMs, random two-qubit states
+    for it in range(8):
+        rho = U.rand_rho(rng, 4, int(rng.integers(1, 5)))
+        if it % 4 == 3:                      # a Bell-diagonal state
+            w = rng.dirichlet(np.ones(4))
+            B = [np.array(v, dtype=complex) / math.sqrt(2) for v in ((1, 0, 0, 1), (1, 0, 0, -1), (0, 1, 1, 0), (0, 1, -1, 0))]
+            rho = sum(wi * np.outer(b, b.conj()) for wi, b in zip(w, B))
+        r = qu.qu(rho, qtype="dop")
+        rot = U.rand_rotation(rng)
+        for kind, Ms in (("projective", U.povm_projective(rng)), ("trine", U.povm_trine(rot=rot)), ("tetra", U.povm_tetra(rot=rot)),
+                         ("unsharp", U.povm_unsharp(float(rng.uniform(0.1, 0.9)), axis=int(rng.integers(1, 4)))),
+                         ("random3", U.povm_random(rng, 3)), ("random4", U.povm_random(rng, 4))):
+            prjs = [qu.qu(M) for M in Ms]
+            X.rel("TextbookValue", "one_way_classical_information", lambda prjs=prjs: qu.calc.one_way_classical_information(r, prjs),
+                  lambda Ms=Ms: U.np_owci(rho, Ms), povm=kind)
+            X.rel("TextbookValue", "one_way_classical_information",
+                  lambda prjs=prjs: qu.calc.one_way_classical_information(r, None, precomp_func=True)(prjs),
+                  lambda Ms=Ms: U.np_owci(rho, Ms), povm=kind, variant="precomp")
+        # J never exceeds the mutual information, and is non-negative
+        Mt = [qu.qu(M) for M in U.povm_tetra(rot=rot)]
+        X.bound("NonNegativity", "ge0", [lambda: qu.calc.one_way_classical_information(r, Mt)], m="one_way_classical_information")
+        X.bound("UpperBound", "le", [lambda: qu.calc.one_way_classical_information(r, Mt), lambda: qu.mutinf(r, (2, 2), 0)], m="one_way_classical_information")
     # discord: covariance under swapping the two parties, on classical-quantum states (asymmetric discord)
     k0 = np.array([1.0, 0.0], dtype=complex)
     k1 = np.array([0.0, 1.0], dtype=complex)
@@ -1105,13 +1166,14 @@ def run(ctx):
     by_ev = {}
     for x in recs:
         key = x["ev"] + (":" + x.get("m", x.get("cl", "")) if x["ev"] in ("obs", "pvec", "pair", "shift") else "")
+        key += (":" + x["povm"]) if x["ev"] == "owci" else ""
         by_ev[key] = by_ev.get(key, 0) + 1
     ctx.extra["observations_by_kind"] = by_ev
     ctx.clauses.update([
         "Returns", "EntropyValue", "EntropySubsysValue", "MutinfValue", "MutinfSubsysValue", "LognegValue", "LognegSubsysValue",
         "NegativityValue", "SchmidtGapValue", "TrSqrtValue", "TrSqrtSubsysValue", "ConcurrenceValue", "DiscordValue",
         "PauliDecompValue", "PartialTransposeValue", "PurifyRoundTrip", "DephaseValue", "MeasureCollapse", "KrausMap",
-        "CountsSupport", "CorrelationValue", "EntCrossMatrixValue", "FidelityValue", "TraceDistanceValue",
+        "CountsSupport", "CorrelationValue", "EntCrossMatrixValue", "FidelityValue", "TraceDistanceValue", "OneWayInfoValue",
         "NOTE:FidelityAccuracy", "TextbookValue", "KetEqualsProjector", "DenseEqualsSparse", "ShortcutEqualsExact", "LocalUnitaryInvariant",
         "RelabelInvariant", "ArgumentSymmetry", "KrausTextbook", "MeasureTextbook", "PurifyTextbook",
         "NonNegativity", "UpperBound", "SubAdditivity", "ArakiLieb", "PureStateIdentity", "FuchsVanDeGraaf", "NegativityLogneg",
